@@ -394,8 +394,7 @@ VARIANTS = [
     fire('K4-str-instead-of-repr', 'C02.R4',
          (CK, "                got = repr(got_eval)\n            except Exception as ex:", "                got = str(got_eval)\n            except Exception as ex:")),
     fire('K4-format-instead-of-repr', 'C02.R4',
-         (CK, "                got = repr(got_eval)\n                flag = check_output(got, want, runstate)\n                if not flag:",
-              "                got = '{}'.format(got_eval)\n                flag = check_output(got, want, runstate)\n                if not flag:")),
+         (CK, "                    got = repr(got_eval)\n", "                    got = '{}'.format(got_eval)\n")),
     fire('E2-drop-has-any-code', 'C02.R5',
          (DE, "                if not part.has_any_code():\n", "                if False:\n")),
     fire('E2-no-skip-record', 'C02.R5',
